@@ -6,6 +6,7 @@ An *op* is a dict in the driver's wire vocabulary, with session ids written as n
 returns the canonical observation; `model_run(cfg, ops)` returns the model's observations.
 """
 import asyncio
+import collections
 import copy
 import json
 
@@ -54,6 +55,25 @@ def ev_wire(x):
 
 # ------------------------------------------------------------------ real side
 
+class _Cancel:
+    """what `_invoked` hands to a coroutine handler that is to end by letting asyncio.CancelledError escape"""
+
+    def __init__(self, style):
+        self.style = style
+
+    async def realise(self):
+        if self.style == 'await':
+            # the handler waits for a worker future of its own that has been cancelled: a real CancelledError
+            # delivered by an await
+            worker = asyncio.get_running_loop().create_future()
+            worker.cancel()
+            await worker
+        raise asyncio.CancelledError()
+
+
+NEUTRAL = {'connect': 'accept', 'event': {'ret': None}, 'disconnect': 'ok'}
+
+
 class Runner:
     def __init__(self, mode, cfg, coroutine_handlers=False, manager=None, server_opts=None, active=False):
         self.mode = mode
@@ -71,6 +91,14 @@ class Runner:
         self.coro = coroutine_handlers and self.w.is_async
         self.codec = None
         self.generated = set()
+        # application-held values: ONE object per distinct scripted value (keyed by repr); handlers return it and
+        # emit()/call() pass it every time, the way an application serves a cached asset / a module constant
+        self.held = {}
+        self.held_reported = set()
+        self.stats = collections.Counter()
+        # harness-only part of the script: [[kind, index, style], ...] = outcomes (accept / ret None / ok) that a
+        # COROUTINE handler realises by letting asyncio.CancelledError escape; the model keeps the scripted outcome
+        self.cancel = {(k, i): st for k, i, st in cfg.get('cancel', [])}
         orig_gen = self.w.eio.generate_id
 
         def gen():
@@ -90,9 +118,36 @@ class Runner:
         lst = self.cfg[key]
         i = self.counters[kind]
         self.counters[kind] += 1
+        self._last_index = i
         if i < len(lst):
             return lst[i]
-        return {'connect': 'accept', 'event': {'ret': None}, 'disconnect': 'ok'}[kind]
+        return NEUTRAL[kind]
+
+    def hold(self, v, what):
+        """the object the application keeps for the scripted value `v` (containers only: scalars and byte strings
+        are immutable)"""
+        if not isinstance(v, (list, dict, tuple)):
+            return copy.deepcopy(v)
+        key = repr(v)
+        h = self.held.get(key)
+        if h is None:
+            h = self.held[key] = {'obj': copy.deepcopy(v), 'uses': 0, 'bytes': _nested_bytes(v)}
+        h['uses'] += 1
+        self.stats['app_value.%s' % what] += 1
+        if h['uses'] > 1:
+            self.stats['app_value.%s.again' % what] += 1
+            if h['bytes']:
+                self.stats['app_value.%s.again.nested_bytes' % what] += 1
+        return h['obj']
+
+    def held_modified(self):
+        """application-held objects that no longer equal the value they were created with (reported once each)"""
+        out = []
+        for key, h in self.held.items():
+            if key not in self.held_reported and repr(h['obj']) != key:
+                self.held_reported.add(key)
+                out.append('%s is now %s' % (key[:160], repr(h['obj'])[:160]))
+        return out
 
     def _active_plan(self, slot, kind, args):
         """what an 'active' handler does besides returning: emit to the client it was called for"""
@@ -111,6 +166,12 @@ class Runner:
         args = [a for a in args if not (isinstance(a, dict) and 'verif.tid' in a)]
         self.records.append(('invoke', slot, list(args)))
         out = self._outcome(kind)
+        if self.coro and out == NEUTRAL[kind] and (kind, self._last_index) in self.cancel:
+            # accepted / returned None / disconnect handled -- but the coroutine ends with CancelledError
+            style = self.cancel[(kind, self._last_index)]
+            self.records.append(('handler_cancelled', slot))
+            self.stats['handler_cancelled.%s.%s.%s' % (kind, slot[0], style)] += 1
+            return _Cancel(style)
         if kind == 'connect':
             if out == 'accept':
                 return None
@@ -124,7 +185,7 @@ class Runner:
             self.records.append(('handler_raised', slot))
             raise HandlerError('scripted')
         if kind == 'event':
-            return copy.deepcopy(out['ret'])
+            return self.hold(out['ret'], 'returned')
         return None
 
     def _mk(self, slot, kind):
@@ -133,7 +194,10 @@ class Runner:
             # the library's TypeError retry path, with auth=None
             if self.coro:
                 async def h3(sid, environ, auth):
-                    return self._invoked(slot, kind, (sid, environ) + (() if auth is None else (auth,)))
+                    r = self._invoked(slot, kind, (sid, environ) + (() if auth is None else (auth,)))
+                    if isinstance(r, _Cancel):
+                        await r.realise()
+                    return r
             else:
                 def h3(sid, environ, auth):
                     return self._invoked(slot, kind, (sid, environ) + (() if auth is None else (auth,)))
@@ -143,7 +207,10 @@ class Runner:
                 plan = self._active_plan(slot, kind, [a for a in args if not (isinstance(a, dict) and 'verif.tid' in a)])
                 if plan:
                     await self.sio.emit(plan['event'], plan['data'], to=plan['to'], namespace=plan['namespace'])
-                return self._invoked(slot, kind, args)
+                r = self._invoked(slot, kind, args)
+                if isinstance(r, _Cancel):
+                    await r.realise()
+                return r
         else:
             def h(*args):
                 plan = self._active_plan(slot, kind, [a for a in args if not (isinstance(a, dict) and 'verif.tid' in a)])
@@ -230,7 +297,7 @@ class Runner:
                             self.records.append(('callback_raised', tok))
                             raise HandlerError('scripted callback failure')
                 kw['callback'] = cb
-            res = w.api('emit', op['ev'], copy.deepcopy(op['data']), namespace=op['ns'], **kw)
+            res = w.api('emit', op['ev'], self.hold(op['data'], 'emitted'), namespace=op['ns'], **kw)
         elif kind == 'call':
             res = self._call(op)
         elif kind == 'disconnect':
@@ -357,7 +424,7 @@ class Runner:
         orig = self.w.eio.create_event
         self.w.eio.create_event = lambda *a, **k: ScriptedEvent()
         try:
-            res = self.w.api('call', op['ev'], copy.deepcopy(op['data']), sid=self.real(op['sid']),
+            res = self.w.api('call', op['ev'], self.hold(op['data'], 'emitted'), sid=self.real(op['sid']),
                              namespace=op['ns'], timeout=5)
         finally:
             self.w.eio.create_event = orig
@@ -435,6 +502,14 @@ class Runner:
                 obs['handler_raised'] += 1
             elif r[0] == 'callback_raised':
                 obs['callback_raised'] = obs.get('callback_raised', 0) + 1
+            elif r[0] == 'handler_cancelled':
+                obs['handler_cancelled'] = obs.get('handler_cancelled', 0) + 1
+        mod = self.held_modified()
+        if mod:
+            obs['app_modified'] = mod
+        if self.w.escaped:
+            obs['escaped'] = ['%s from %s' % (cls, where) for where, cls in self.w.escaped]
+            del self.w.escaped[:]
         if res[0] == 'exc':
             obs['exc'] = res[1]
         elif res[1] is not None and op['op'] in ('rooms', 'get_session', 'session_block', 'session_nested', 'call'):
@@ -710,6 +785,12 @@ def _sorted_invokes(inv):
 def compare(op, impl, model):
     """-> list of textual differences (empty = agree)"""
     diffs = []
+    if impl.get('app_modified'):
+        diffs.append('the library modified an object that belongs to the application (a value a handler returned or '
+                     'that was passed to emit()/call()): %s' % '; '.join(impl['app_modified']))
+    if impl.get('escaped'):
+        diffs.append('an exception that is not an Exception escaped from the server (through engine.io\'s callback or '
+                     'an API call): %s' % ', '.join(impl['escaped']))
     if impl['sends'] != model['sends']:
         diffs.append('sends differ: impl=%r model=%r' % (impl['sends'], model['sends']))
     ii, mi = impl['invokes'], model['invokes']
@@ -883,6 +964,8 @@ def run_cases(ctx, profile, ncases, nops, oracle=None, nontrivial=None, modes=('
             residue = runner.residue()
         finally:
             runner.close()
+        for key, v in runner.stats.items():
+            ctx.count(key, v)
         model, snap = model_run(cfg, ops)
         trace = list(zip(ops, impl, model))
         evals += len(ops)
@@ -978,6 +1061,20 @@ def replay_case(ctx, r, oracle=None):
 
 
 # ------------------------------------------------------------------ helpers for oracles
+
+def _nested_bytes(v, depth=0):
+    """does `v` contain a byte string INSIDE a list/dict that the server does not rebuild itself (the top-level
+    tuple / the value itself are wrapped in a new list by the server)"""
+    if isinstance(v, (bytes, bytearray)):
+        return depth >= 1
+    if isinstance(v, tuple) and depth == 0:
+        return any(_nested_bytes(x, 0) for x in v if not isinstance(x, (bytes, bytearray)))
+    if isinstance(v, (list, tuple)):
+        return any(_nested_bytes(x, depth + 1) for x in v)
+    if isinstance(v, dict):
+        return any(_nested_bytes(x, depth + 1) for x in v.values())
+    return False
+
 
 def sent_packets(obs):
     """[(tid, packet dict)] decoded with the independent codec"""
